@@ -1,3 +1,4 @@
+import Unimock.Generated.Control
 import Unimock.Model.ValueChain
 /-!
 # C13 — references lent by the mock stay valid, distinct and unmodified while borrowed
@@ -113,5 +114,12 @@ example :
     let s : RaceState := { chain := [], pushers := [{ v := ⟨1, 0⟩ }, { v := ⟨2, 0⟩ }] }
     (raceRun s [0, 1, 1]).chain = [⟨1, 0⟩, ⟨2, 0⟩] ∧
     (raceRun s [0, 1, 1]).pushers.map (·.done) = [some 0, some 1] := by decide
+
+
+/-- values lent during default-method delegation live in the helper's value chain; the helper cell is only ever filled
+    through `get_or_init` (`AsRef` and `AsMut` alike, re-translated from `src/lib.rs` on every run), so a later delegation —
+    also one through `&mut self` — keeps the existing helper and with it everything it has lent -/
+theorem C13_source_helper_cell_reused :
+    Unimock.Generated.delegatorCellRef = .getOrInitClone ∧ Unimock.Generated.delegatorCellMut = .getOrInitClone := ⟨rfl, rfl⟩
 
 end Unimock
